@@ -87,6 +87,7 @@ type Exec struct {
 	lastNow      *Term
 	choiceVals   map[string]uint64
 	scratch      bool
+	pins         map[string]uint64
 	witnesses    []*witness
 	pendingNotes []oblNote
 	bounds       map[int]rng
